@@ -94,4 +94,27 @@ def check(ctx: Ctx) -> str:
     sets = [n_ for n_ in ast.walk(ve.node) if isinstance(n_, ast.Assign) and ast.unparse(n_.targets[0]) == "self.has_known_extends"]
     ctx.check(len(sets) == 1 and any(g == "frame.rootlevel" and pol for g, pol in astq.guard_texts(ve.node, sets[0])), "known-extends:rootlevel", "compiler:CodeGenerator.visit_Extends", "known extends only at root level",
               "has_known_extends may only be set for an extends at root level (not inside an if)", ve.loc())
+    template_passthrough_rule(ctx, "R5")
     return __doc__ or ""
+
+
+def template_passthrough_rule(ctx: Ctx, rid: str) -> None:
+    """Shared with C05: extends / include / import accept a Template object as target; the
+    lookup functions hand it back before any name processing (join_path, loading)."""
+    ctx.use("environment")
+    repo = ctx.repo
+    ctx.rule(rid, "parent / include targets given as Template objects pass through unchanged: in get_template and select_template every join_path(...) and _load_template(...) on the candidate is dominated by the early return under isinstance(<candidate>, Template)")
+    n = 0
+    for meth in ("get_template", "select_template"):
+        fi = repo.func(f"environment:Environment.{meth}")
+        for c in astq.calls(fi.node):
+            f = astq.callee(c)
+            if f not in ("self.join_path", "self._load_template") or not c.args or not isinstance(c.args[0], ast.Name):
+                continue
+            var = c.args[0].id
+            n += 1
+            gs = astq.guard_texts(fi.node, c)
+            ok = any(g == f"isinstance({var}, Template)" and not pol for g, pol in gs)
+            ctx.check(ok, f"{meth}:{f}", f"environment:Environment.{meth}", f"{f}({var}, ...) not preceded by the Template short-circuit",
+                      f"{meth} calls {f}({var}, ...) on a path where `{var}` may still be a Template object (guards: {gs}): `{{% extends layout %}}` with a Template object then reaches join_path / the loader - any environment overriding join_path breaks the inheritance chain, unlike {('select_template' if meth == 'get_template' else 'get_template')}", fi.loc(c), detail={"guards": [f"{'' if p else 'not '}{g}" for g, p in gs]})
+    ctx.floor("name-processing calls in get_template / select_template", n, 4)
